@@ -847,6 +847,17 @@ class World:
         self.check_doc(idx, op, dm)
         return "ok"
 
+    def op_doc_set_root_attr(self, idx, op, entry):
+        """svg-level attributes of a Document are supplied through its (documented) ElementTree root"""
+        if op["doc"] not in self.docs:
+            return "skipped"
+        dm = self.docs[op["doc"]]
+        dm.obj.root.set(op["key"], op["value"])
+        dm.tree.svg_attrs[op["key"]] = op["value"]
+        dm.dirty = True
+        self.check_doc(idx, op, dm)
+        return "ok"
+
     def check_doc(self, idx, op, dm):
         """Visibility: the Document's own queries see what was added, at its place."""
         st, ps, _ = self.run({"faults": []}, lambda: dm.obj.paths())
@@ -1058,6 +1069,7 @@ class Gen:
             "doc_get_or_add_group": c.choice([0, 1]), "doc_save": c.choice([1, 2, 3]),
             "doc_display": c.choice([0, 0, 1]), "doc_paths": c.choice([0, 1]),
             "doc_paths_from_group": c.choice([0, 1]), "sax_resave": c.choice([0, 0, 1]),
+            "doc_set_root_attr": c.choice([0, 1]),
             "read": c.choice([0, 1, 2]), "restart": c.choice([0, 0, 1]),
         }
         if self.w_ops["wsvg"] + self.w_ops["disvg"] + self.w_ops["doc_new"] == 0:
@@ -1322,6 +1334,11 @@ class Gen:
             if self.reuse_names and a.random() < 0.5:
                 op["names_ref"] = "L%d" % GROUP_POOL.index(op["names"])
             return op
+        if k == "doc_set_root_attr":
+            key = a.choice(["width", "height", "viewBox", "data-x", "id"])
+            val = {"width": "100px", "height": "50px", "viewBox": "0 0 10 10", "id": "root7"}.get(
+                key, a.choice(VAL_NASTY if self.attr_mode == "nasty" else VAL_SIMPLE))
+            return {"op": k, "doc": d, "key": key, "value": val}
         if k == "doc_save":
             return {"op": k, "doc": d, "file": a.choice(self.files), "prettify": a.random() < 0.4}
         if k == "doc_display":
